@@ -16,7 +16,7 @@ RULE = sqlmon.RULE_HISTORIES + ' Job DAGs: in-update and cross-update parents, r
 ASSUMPTIONS = sqlmon.COMMON_ASSUMPTIONS
 SHARDS = {'quick': 4, 'thorough': 16}
 TIMEOUT = {'quick': 900, 'thorough': 3600}
-FLOORS = {'dependency_edges_compared_with_submission': 300, 'legacy_parent_key_edges_compared': 10, 'scripted_always_run_children_of_failed_parents_checked': 4, 'scripted_children_checked': 40, 'scripted_scenarios': 10, 'scripted_live_parent_commits': 10, 'scripted_mixed_parent_completions': 3, 'jobs_with_parents_observed_live': 100, 'children_cancelled_by_failed_parent': 10, 'histories_free_of_known_patterns': 50}
+FLOORS = {'worker_hand_overs_checked': 300, 'worker_hand_overs_of_jobs_marked_cancelled_by_a_parent': 5, 'dependency_edges_compared_with_submission': 300, 'legacy_parent_key_edges_compared': 10, 'scripted_always_run_children_of_failed_parents_checked': 4, 'scripted_children_checked': 40, 'scripted_scenarios': 10, 'scripted_live_parent_commits': 10, 'scripted_mixed_parent_completions': 3, 'jobs_with_parents_observed_live': 100, 'children_cancelled_by_failed_parent': 10, 'histories_free_of_known_patterns': 50}
 
 
 class Deps(Monitor):
@@ -236,11 +236,11 @@ def run(ctx):
     from vf.world.run import HistoryRunner
 
     p = Patterns()
-    r = HistoryRunner(ctx, [p, Deps(p), sqlmon.EdgeMonitor(p, check_lifecycle=False)], cfg={'weights': dict(sqlmon.WEIGHTS_RUN), 'job_private': False},
+    r = HistoryRunner(ctx, [p, Deps(p), sqlmon.EdgeMonitor(p, check_lifecycle=False, check_handover=True)], cfg={'weights': dict(sqlmon.WEIGHTS_RUN), 'job_private': False},
                       n_ops=ctx.pick(25, 40), setup=scripted)
     for i, rng in ctx.cases(ctx.pick(44, 220), 'scripted'):
         res = r.run_case(i, rng)
         ops = res.get('ops', [])
         ctx.case(sample={'scripted-prefix+ops': ops[:30]}, key=('scripted', i, tuple(ops)), nontrivial=True)
-    sqlmon.standard_run(ctx, lambda p: [Deps(p), sqlmon.EdgeMonitor(p, check_lifecycle=False)],
+    sqlmon.standard_run(ctx, lambda p: [Deps(p), sqlmon.EdgeMonitor(p, check_lifecycle=False, check_handover=True)],
                         cfg={'parent_p': 0.8, 'weights': {'job_complete': 16, 'cancel_batch': 0.5, 'cancel_job_group': 1, 'cancel_ready': 5}})
